@@ -143,10 +143,14 @@ package nat
 
 // AddPublicIP rejects an address that is already in the pool (duplicate scan = loop #1, read only).
 //@ loop Manager.AddPublicIP#1
+//@   invariant forall k int :: 0 <= k && k < i ==> ipkey(m.pool[k].PublicIP) != ipkey(ip4)
 //@   invariant m.pool == locked(m.pool) && m.pmax && m.pcnt && natCfgOK(m)
 //@   invariant ((m.portRangeEnd - m.portRangeStart + 1) / m.portsPerSubscriber) * m.portsPerSubscriber <= m.portRangeEnd - m.portRangeStart + 1
 
 //@ func (m *Manager) AddPublicIP
+// "no two subscribers hold overlapping port ranges on the same public address": a public address is
+// in the pool once, whatever byte form (4 or 16 bytes) it is given in -- no earlier entry is Equal to it
+//@   ensures err == nil ==> forall k int :: 0 <= k && k < locked(len(m.pool)) ==> ipkey(locked(m.pool[k].PublicIP)) != ipkey(ip4)
 //@   ensures err == nil ==> len(m.pool) == locked(len(m.pool)) + 1 && m.pool[len(m.pool)-1].Subscribers == 0
 //@   ensures err == nil ==> forall i int :: 0 <= i && i < locked(len(m.pool)) ==> m.pool[i] == locked(m.pool[i])
 
@@ -166,6 +170,9 @@ package nat
 // (the allocating path is the one that did not find the subscriber at the first look-up)
 //@   ensures err == nil && !lockedN(1, privKey in m.allocations) && old(m.natLogger) != nil ==> logAllocs == 1
 //@   ensures err != nil || lockedN(1, privKey in m.allocations) ==> logAllocs == 0
+// a failed allocation leaves no block recorded for the subscriber (otherwise the control plane says the
+// subscriber holds a block the pool counter treats as free, and the next subscriber is given it too)
+//@   ensures err != nil && ip4 != nil ==> privKey !in m.allocations
 
 //@ loop Manager.AllocateNAT#1
 //@   invariant selectedPool == nil
